@@ -26,15 +26,31 @@ fn atoms_full() -> Vec<V> {
     v
 }
 
+/// Lengths whose big-endian u16 bytes collide with marker bytes (00, 09) or sit on byte boundaries.
+const COLLIDING_LENGTHS: [usize; 7] = [9, 255, 256, 0x0900, 0x0909, 0x0A00, 0x0300];
+
 fn strings_full() -> Vec<String> {
-    vec![
+    let mut v = vec![
         "".to_string(), "a".to_string(), "\u{e9}".to_string(), "\u{1D11E}".to_string(),
         "x".repeat(65535), "y".repeat(65536),
-    ]
+        // non-ASCII strings around the limit: <= 65535 characters but more bytes, and exactly at the limit
+        "\u{e9}".repeat(32768), format!("{}a", "\u{e9}".repeat(32767)), "\u{1D11E}".repeat(16384),
+    ];
+    for l in COLLIDING_LENGTHS {
+        v.push("s".repeat(l));
+    }
+    v
 }
 
 fn names_full() -> Vec<String> {
-    vec!["".to_string(), "a".to_string(), "b".to_string(), "\u{e9}".to_string(), "n".repeat(65535), "m".repeat(65536)]
+    let mut v = vec![
+        "".to_string(), "a".to_string(), "b".to_string(), "\u{e9}".to_string(), "n".repeat(65535), "m".repeat(65536),
+        "\u{e9}".repeat(32768), format!("{}a", "\u{e9}".repeat(32767)),
+    ];
+    for l in COLLIDING_LENGTHS {
+        v.push("k".repeat(l));
+    }
+    v
 }
 
 fn atoms_small() -> Vec<V> {
@@ -165,8 +181,8 @@ pub fn forests(thorough: bool) -> (Vec<Vec<V>>, Value) {
         }
     }
     let desc = json!({
-        "atoms": "12 number bit patterns (+-0, +-1, min subnormal, max, +-inf, quiet/signalling/negative NaN, 2^53+1), true/false, null, undefined, strings \"\", a, e-acute, U+1D11E, 65535 bytes, 65536 bytes",
-        "property_names": "\"\", a, b, e-acute, 65535 bytes, 65536 bytes",
+        "atoms": "12 number bit patterns (+-0, +-1, min subnormal, max, +-inf, quiet/signalling/negative NaN, 2^53+1), true/false, null, undefined, strings \"\", a, e-acute, U+1D11E, 65535 and 65536 ASCII bytes, 32768 x e-acute (65536 bytes), 32767 x e-acute + a (65535 bytes), 16384 x U+1D11E, and lengths 9, 255, 256, 0x0300, 0x0900, 0x0909, 0x0A00 (length bytes colliding with marker bytes)",
+        "property_names": "\"\", a, b, e-acute, 65535 bytes, 65536 bytes, non-ASCII names of 65535/65536 bytes, and the marker-colliding lengths",
         "distinct_values": nvalues,
         "sequences": "every value alone; all pairs over a representative subset; all triples over a smaller subset",
         "max_depth": if thorough { 4 } else { 3 },
@@ -177,8 +193,8 @@ pub fn forests(thorough: bool) -> (Vec<Vec<V>>, Value) {
 
 fn short(vs: &[V]) -> String {
     let s = format!("{:?}", vs);
-    if s.len() > 300 {
-        format!("{}...({} chars)", &s[..300], s.len())
+    if s.chars().count() > 300 {
+        format!("{}...({} chars)", s.chars().take(300).collect::<String>(), s.chars().count())
     } else {
         s
     }
@@ -361,7 +377,14 @@ pub fn run_c12(run: &Run) {
                         }
                     }
                 }
-                // not encodable but accepted: C04's subject (the bytes cannot denote the value)
+                if !ok {
+                    // a value the format cannot express (string or name above 65,535 bytes, empty name) was
+                    // encoded anyway: whatever the bytes are, they are not a u16-length-prefixed encoding of it
+                    let denotes_it = r3::decode_seq(&bytes).map(|d| canon_seq(&d) == canon_seq(f)).unwrap_or(false);
+                    if !denotes_it {
+                        run.violation(&format!("C12/encoder-output-for-inexpressible-value/{}", shape(f)), &format!("serialize accepted {} and produced {} bytes that do not denote it", short(f), bytes.len()), replay.clone());
+                    }
+                }
             }
         }
         if !ok {
